@@ -43,6 +43,13 @@ func c09Workspaces() []c09WS {
 			open: []string{"main.lua"},
 			queries: []c09Query{{"definition", "main.lua", 0, 21, ""}, {"hover", "main.lua", 0, 21, ""}, {"definition", "main.lua", 1, 11, ""},
 				{"definition", "main.lua", 1, 20, ""}, {"completion", "main.lua", 1, 10, ""}}},
+		{name: "w3-files-that-look-at-each-other-in-the-first-pass",
+			files: map[string]string{"luahelper.json": `{"ShowWarnFlag":1,"ReferFrameFiles":[{"Name":"import","type":2,"SuffixFlag":1}]}`,
+				"a.lua": "local m = import(\"b.lua\")\nprint(m.x, E2)\nlocal n = import(\"c.lua\")\nprint(n)\n", "b.lua": "local M = {x = 1}\nreturn M\n",
+				"c.lua": "---@enum start\nE1 = 1\nE2 = E1\nE3 = 1\n---@enum end\ncglobal = 2\n", "d.lua": "print(E1, cglobal, m)\n"},
+			open: []string{"a.lua", "d.lua"},
+			queries: []c09Query{{"definition", "a.lua", 1, 8, ""}, {"hover", "a.lua", 1, 8, ""}, {"hover", "a.lua", 0, 6, ""}, {"definition", "a.lua", 2, 18, ""},
+				{"definition", "d.lua", 0, 6, ""}, {"references", "d.lua", 0, 10, ""}, {"completion", "a.lua", 1, 8, "."}}},
 		{name: "w4-global-used-in-three-files",
 			files: map[string]string{"a.lua": "gcount = 1\n", "b.lua": "print(gcount)\n", "c.lua": "gcount = gcount + 1\nprint(gundefined)\n", "d.lua": "local unused = gcount\n"},
 			open:  []string{"a.lua", "b.lua"},
@@ -294,7 +301,7 @@ func init() {
 	core.Register(&core.Check{
 		ID:        "C09",
 		Technique: "stateless schedule exploration of the real server under a controlled runtime (iterative context bounding over goroutine start, channel, reflect.Select, mutex, WaitGroup and shared-object method-entry points) crossed with the pool width and every start offset of Go's map iteration; all executions of a workspace must give identical observables",
-		Rule: "closed systems: 5 small workspaces (duplicate global function, same-base-name modules, a global used in three files, symbols sharing a prefix, class annotations across files); each is started (directory scan, first/second/third pass pools), files are opened and definition/hover/references/completion/symbol queries are asked; " +
+		Rule: "closed systems: 6 small workspaces (duplicate global function, same-base-name modules, files that look at each other during the first pass through a type-2 import frame and an enum block, a global used in three files, symbols sharing a prefix, class annotations across files); each is started (directory scan, first/second/third pass pools), files are opened and definition/hover/references/completion/symbol queries are asked; " +
 			"explored: every schedule with <=1 deviation from the default schedule at synchronisation points for NumCPU in {1,2} x all 8 map-iteration start offsets (<=2 deviations at offset 0; thorough: at every offset), plus method-entry granularity with <=1 deviation at offsets {0,1} (thorough: <=2 at offset 0); oracle: the normalised observables equal those of the canonical execution (1 CPU, offset 0, default schedule). " +
 			"states = completed executions; transitions = scheduling decisions; non-trivial = configurations with more than one outcome",
 		Assumptions: []string{
